@@ -431,30 +431,68 @@ func hostExtractionShape(fn *ssa.Function) (bool, string) {
 			collOK = fv != nil && fv.Name() == "Hosts"
 		}
 	}
-	var app *ssa.Call
+	// accumulation sites: append onto the accumulator, or out[i] = v with out = make([]string, len(coll))
+	type site struct {
+		val   ssa.Value
+		block *ssa.BasicBlock
+	}
+	var sites []site
+	region := l.Loop.Region()
 	allInstrs(fn, func(i ssa.Instruction) {
-		if ac, ok := i.(*ssa.Call); ok && calleeKey(&ac.Call) == "builtin append" && isAccumulator(ac.Call.Args[0], l.Loop.Header, l.Loop.Region()) {
-			app = ac
+		if ac, ok := i.(*ssa.Call); ok && calleeKey(&ac.Call) == "builtin append" && region[ac.Block()] && isAccumulator(ac.Call.Args[0], l.Loop.Header, region) {
+			vs := varargValues(ac.Call.Args[1])
+			if len(vs) == 1 {
+				sites = append(sites, site{vs[0], ac.Block()})
+			} else {
+				sites = append(sites, site{nil, ac.Block()})
+			}
 		}
 	})
-	if app == nil {
-		return false, "hosts are not accumulated by append in loop order"
+	if len(sites) == 0 {
+		for b := range region {
+			for _, in := range b.Instrs {
+				st, ok := in.(*ssa.Store)
+				if !ok {
+					continue
+				}
+				ia, ok := st.Addr.(*ssa.IndexAddr)
+				if !ok || ia.Index != l.Idx {
+					continue
+				}
+				if _, n, fresh := freshSlice(ia.X); fresh && n != nil {
+					if lc, ok := n.(*ssa.Call); ok && calleeKey(&lc.Call) == "builtin len" && sameExpr(lc.Call.Args[0], l.Coll) {
+						sites = append(sites, site{st.Val, st.Block()})
+					}
+				}
+			}
+		}
 	}
-	vals := varargValues(app.Call.Args[1])
-	if len(vals) != 1 {
-		return false, "append of other than one host per iteration"
+	if len(sites) == 0 {
+		return false, "hosts are not accumulated in loop order (append onto the accumulator, or a store at the loop index into make([]string, len(hosts)))"
 	}
 	// value: phi/Extract#0 of net.SplitHostPort(elem) or elem itself
 	okVal := true
 	var check func(v ssa.Value, depth int, from *ssa.BasicBlock)
 	check = func(v ssa.Value, depth int, from *ssa.BasicBlock) {
-		if depth > 4 {
+		if depth > 4 || v == nil {
 			okVal = false
 			return
 		}
 		switch x := v.(type) {
 		case *ssa.Phi:
 			for i, e := range x.Edges {
+				if cs, isC := constString(e); isC && cs == "" {
+					// the zero value on a path that carries a non-nil error (the caller of the loop returns it)
+					errEdge := false
+					for _, in := range x.Block().Instrs {
+						if ep, ok := in.(*ssa.Phi); ok && isErrorType(ep.Type()) && !isNilConst(ep.Edges[i]) {
+							errEdge = true
+						}
+					}
+					if errEdge {
+						continue
+					}
+				}
 				check(e, depth+1, x.Block().Preds[i])
 			}
 		case *ssa.Extract:
@@ -486,17 +524,69 @@ func hostExtractionShape(fn *ssa.Function) (bool, string) {
 			okVal = false
 		}
 	}
-	check(vals[0], 0, nil)
-	everyIterOrError := true
+	siteBlocks := map[*ssa.BasicBlock]int{}
+	for _, st := range sites {
+		check(st.val, 0, st.block)
+		siteBlocks[st.block]++
+	}
+	// every path through the loop body to a latch passes exactly one accumulation site
+	latch := map[*ssa.BasicBlock]bool{}
 	for _, lt := range l.Loop.Latch {
-		if !app.Block().Dominates(lt) {
-			everyIterOrError = false
+		latch[lt] = true
+	}
+	type mm struct{ min, max int }
+	memo := map[*ssa.BasicBlock]*mm{}
+	onStack := map[*ssa.BasicBlock]bool{}
+	var walk func(b *ssa.BasicBlock) *mm
+	walk = func(b *ssa.BasicBlock) *mm {
+		if m, ok := memo[b]; ok {
+			return m
+		}
+		if onStack[b] {
+			return &mm{0, 99} // inner cycle: not a simple body
+		}
+		onStack[b] = true
+		defer delete(onStack, b)
+		res := &mm{1 << 20, -1}
+		if latch[b] {
+			res = &mm{0, 0}
+		}
+		for _, sc := range b.Succs {
+			if sc == l.Loop.Header || !region[sc] {
+				if sc == l.Loop.Header && !latch[b] {
+					res = &mm{0, 0}
+				}
+				continue
+			}
+			m := walk(sc)
+			if m.max < 0 {
+				continue // leads only out of the loop (error return)
+			}
+			if m.min < res.min {
+				res.min = m.min
+			}
+			if m.max > res.max {
+				res.max = m.max
+			}
+		}
+		if res.max >= 0 {
+			res.min += siteBlocks[b]
+			res.max += siteBlocks[b]
+		}
+		memo[b] = res
+		return res
+	}
+	everyIterOrError := false
+	for _, sc := range l.Loop.Header.Succs {
+		if region[sc] && sc != l.Loop.Header {
+			m := walk(sc)
+			everyIterOrError = m.min == 1 && m.max == 1
 		}
 	}
 	if collOK && okVal && everyIterOrError {
-		return true, "single range over cs.Hosts, append(host part of SplitHostPort | element) once per iteration"
+		return true, fmt.Sprintf("single range over cs.Hosts; every completed iteration stores exactly one value (host part of SplitHostPort | element where there is no port), %d site(s)", len(sites))
 	}
-	return false, fmt.Sprintf("host extraction shape not recognised: rangesOverHosts=%v valueIsHostPart=%v appendEveryIteration=%v", collOK, okVal, everyIterOrError)
+	return false, fmt.Sprintf("host extraction shape not recognised: rangesOverHosts=%v valueIsHostPart=%v oneStorePerIteration=%v", collOK, okVal, everyIterOrError)
 }
 
 func c16Pairing(c *Ctx, r *Report, an *Anchors, a *atlasAnchors) {
@@ -662,7 +752,7 @@ func noRedirectRule(c *Ctx, r *Report, rule string) {
 			r.Check(okCR, rule, construct, pos, "the client that carries the credentials never follows a redirect: requests, and challenge answers, go to the constructed Atlas URL only", detail)
 		}
 	}
-	if n < 2 {
-		r.Bad(rule, "credentialed-clients", "-", fmt.Sprintf("only %d http.Client literal(s) with the digest transport found (4 today): anchor lost", n))
+	if n < 1 {
+		r.Bad(rule, "credentialed-clients", "-", fmt.Sprintf("%d http.Client literal(s) with the digest transport found (4 today): anchor lost", n))
 	}
 }
